@@ -97,6 +97,31 @@ Qed.
 (* ends without an error: a page (or name and version) is printed, status 0 *)
 Definition prints_page (x : action) : bool := match x with AHelpApp | AHelpCmd _ => true | _ => false end.
 
+(* the help resolver's probe: the first default that parses the line, the ones before it refused or with a value error *)
+Definition unfit (toks : list str) (c : bcmd) : Prop :=
+  parse (b_fmt c) (b_lenient c) toks = Err CannotParse \/ parse (b_fmt c) (b_lenient c) toks = Err ValueError.
+Lemma help_pick_first_parsable ds1 d x ds2 toks : Forall (unfit toks) ds1 -> parse (b_fmt d) (b_lenient d) toks = Ok x ->
+  forall first, help_pick_default (ds1 ++ d :: ds2) toks first = Ok (Some (d, Ok x)).
+Proof.
+  induction ds1 as [|c r IH]; intros Hf Hd first; cbn [app help_pick_default].
+  - rewrite Hd. reflexivity.
+  - inversion Hf as [|? ? Hc Hr]; subst. destruct Hc as [Hc|Hc]; rewrite Hc; apply IH; assumption.
+Qed.
+(* none parses it: the first one *)
+Lemma help_pick_none_parsable toks : forall ds first, Forall (unfit toks) ds ->
+  exists k, help_pick_default ds toks first =
+    Ok (match first, ds with Some (b, k0), _ => Some (b, Err k0) | None, d :: _ => Some (d, Err k) | None, [] => None end).
+Proof.
+  induction ds as [|d r IH]; intros first Hf; cbn [help_pick_default]; [exists CannotParse; destruct first as [[b k]|]; reflexivity|].
+  inversion Hf as [|? ? Hd Hr]; subst. destruct Hd as [Hd|Hd]; rewrite Hd.
+  - destruct first as [[b k0]|].
+    + destruct (IH (Some (b, k0)) Hr) as [k ->]. exists k. reflexivity.
+    + destruct (IH (Some (d, CannotParse)) Hr) as [k ->]. exists CannotParse. reflexivity.
+  - destruct first as [[b k0]|].
+    + destruct (IH (Some (b, k0)) Hr) as [k ->]. exists k. reflexivity.
+    + destruct (IH (Some (d, ValueError)) Hr) as [k ->]. exists ValueError. reflexivity.
+Qed.
+
 Section HelpAfterPath.
   Variables (cfg : appcfg) (a : application) (debug : bool) (path : list str) (sw : str).
   Hypothesis Hb : build_app cfg = Ok a.
@@ -119,43 +144,43 @@ Section HelpAfterPath.
      leniently, as configured), else the first one, else the command itself - parsed leniently in the end *)
   Lemma help_target_of_path b p : walk (named_of (ap_cmds a)) None path = Ok (Some (b, p)) ->
     help_target a (S_help :: path) =
-      (do d <- pick_default (defaults_of (b_subs b)) path None;
+      (do d <- help_pick_default (defaults_of (b_subs b)) path None;
        match d with
-       | Some (dc, _) => do _ <- parse (b_fmt dc) true path; Ok (p ++ [b_name dc])
-       | None => do _ <- parse (b_fmt b) true path; Ok p
+       | Some (dc, _) => do _ <- help_lenient (b_fmt dc) path; Ok (p ++ [b_name dc])
+       | None => do _ <- help_lenient (b_fmt b) path; Ok p
        end).
   Proof.
     intros Hw. rewrite help_word_dropped by exact Hh. unfold help_target.
     assert ((match path with t :: r => if str_eqb t S_help then r else path | [] => [] end) = path) as ->.
     { destruct path as [|t r]; [reflexivity|now rewrite Hh]. }
     rewrite (leading_all _ Hplain), Hw. cbn [bind].
-    destruct (pick_default (defaults_of (b_subs b)) path None) as [[[dc r]|]|k]; cbn [bind]; try reflexivity;
-      destruct (parse _ true path); reflexivity.
+    destruct (help_pick_default (defaults_of (b_subs b)) path None) as [[[dc r]|]|k]; cbn [bind]; reflexivity.
   Qed.
 
   (* THAT command's page: the path walks to b (name path p), b has no default sub-command - the run prints the page of
-     p exactly when the lenient parse of the path with b's format succeeds, and reports that parse's error otherwise *)
+     p unless the lenient parse of the path with b's format fails with something else than a value error (since fix
+     488171f a value error no longer keeps the page from being shown; leniency swallows the two parse errors) *)
   Lemma help_switch_page b p : walk (named_of (ap_cmds a)) None path = Ok (Some (b, p)) -> defaults_of (b_subs b) = [] ->
     sm_action (run_summary debug a (path ++ [sw])) =
-      match parse (b_fmt b) true path with Ok _ => AHelpCmd p | Err k => AHelpFail k end.
+      match help_lenient (b_fmt b) path with Ok _ => AHelpCmd p | Err k => AHelpFail k end.
   Proof.
-    intros Hw Hd. rewrite help_switch_run. unfold help_page. rewrite (help_target_of_path b p Hw), Hd. cbn [pick_default bind].
-    destruct (parse (b_fmt b) true path); reflexivity.
+    intros Hw Hd. rewrite help_switch_run. unfold help_page. rewrite (help_target_of_path b p Hw), Hd. cbn [help_pick_default bind].
+    destruct (help_lenient (b_fmt b) path); reflexivity.
   Qed.
-  Lemma help_switch_page_ok b p x : walk (named_of (ap_cmds a)) None path = Ok (Some (b, p)) -> defaults_of (b_subs b) = [] ->
-    parse (b_fmt b) true path = Ok x ->
+  Lemma help_switch_page_ok b p : walk (named_of (ap_cmds a)) None path = Ok (Some (b, p)) -> defaults_of (b_subs b) = [] ->
+    help_lenient (b_fmt b) path = Ok tt ->
     sm_action (run_summary debug a (path ++ [sw])) = AHelpCmd p /\ prints_page (sm_action (run_summary debug a (path ++ [sw]))) = true.
   Proof. intros Hw Hd Hp. rewrite (help_switch_page b p Hw Hd), Hp. auto. Qed.
 
   (* with default sub-commands: the page of the default sub-command the line selects *)
-  Lemma help_switch_page_default b p ds1 d ds2 x y : walk (named_of (ap_cmds a)) None path = Ok (Some (b, p)) ->
+  Lemma help_switch_page_default b p ds1 d ds2 x : walk (named_of (ap_cmds a)) None path = Ok (Some (b, p)) ->
     defaults_of (b_subs b) = ds1 ++ d :: ds2 ->
-    Forall (fun c => parse (b_fmt c) (b_lenient c) path = Err CannotParse) ds1 ->
-    parse (b_fmt d) (b_lenient d) path = Ok x -> parse (b_fmt d) true path = Ok y ->
+    Forall (fun c => parse (b_fmt c) (b_lenient c) path = Err CannotParse \/ parse (b_fmt c) (b_lenient c) path = Err ValueError) ds1 ->
+    parse (b_fmt d) (b_lenient d) path = Ok x -> help_lenient (b_fmt d) path = Ok tt ->
     sm_action (run_summary debug a (path ++ [sw])) = AHelpCmd (p ++ [b_name d]).
   Proof.
     intros Hw Hd H1 H2 H3. rewrite help_switch_run. unfold help_page. rewrite (help_target_of_path b p Hw), Hd.
-    rewrite (pick_default_first_parsable ds1 d x ds2 path H1 H2 None). cbn [bind]. now rewrite H3.
+    rewrite (help_pick_first_parsable ds1 d x ds2 path H1 H2 None). cbn [bind]. now rewrite H3.
   Qed.
 
   (* and never the handler, never a resolution error of the line itself *)
